@@ -1,0 +1,69 @@
+//go:build verif
+
+// Contracts for govc (contract-based deductive verification); comments only.
+package pod_status
+
+// A PodStatus value is one of the twelve declared constants (single bits).
+//@ define isStatus(s int) bool = s == Pending || s == Gated || s == Allocated || s == Pipelined || s == Binding || s == Bound || s == Running || s == Releasing || s == Succeeded || s == Failed || s == Unknown || s == Deleted
+
+// Status classes, written out as sets (C14: "pod counts per status"; DESIGN C14: "an edit of a mask is
+// seen by every invariant that mentions the class").
+// alive: the pod still counts towards the workload (not finished / failed / deleted / releasing)
+//@ define stAlive(s int) bool = s == Pending || s == Gated || s == Allocated || s == Pipelined || s == Binding || s == Bound || s == Running
+// active used: occupies (or is about to occupy) node resources, terminating pods included
+//@ define stActiveUsed(s int) bool = s == Allocated || s == Pipelined || s == Binding || s == Bound || s == Running || s == Releasing
+// active allocated: counts towards the gang minimum
+//@ define stActiveAllocated(s int) bool = s == Allocated || s == Pipelined || s == Binding || s == Bound || s == Running
+// bound: holds resources on its node now
+//@ define stBound(s int) bool = s == Allocated || s == Bound || s == Running || s == Releasing
+// allocated: charged to the workload's Allocated resources
+//@ define stAllocated(s int) bool = s == Allocated || s == Binding || s == Bound || s == Running
+
+// The same classes as computed by the code's masks, for use inside quantifiers of other packages' specs
+// (a call to Is*Status cannot be used under a quantifier). The contracts below tie them to the status sets above.
+//@ define inAlive(s int) bool = bitand(aliveStatuses, s) != 0
+//@ define inActiveUsed(s int) bool = bitand(activeUsedStatuses, s) != 0
+//@ define inActiveAllocated(s int) bool = bitand(activeAllocatedStatuses, s) != 0
+//@ define inBound(s int) bool = bitand(boundStatuses, s) != 0
+//@ define inAllocated(s int) bool = bitand(allocatedStatuses, s) != 0
+
+// Named copy of inActiveAllocated (definitional axiom of a new symbol, conservative): keeps the mask arithmetic out of
+// quantified invariants over queue contents (podgroup_info.getTasksToEvictPriorityQueue), where it made one obligation slow.
+//@ declare aaClass(s int) bool
+//@ axiom forall s int :: aaClass(s) == (bitand(activeAllocatedStatuses, s) != 0)
+
+//@ func IsAliveStatus
+//@   props C14 C03 C06
+//@   pure
+//@   ensures isStatus(statusInput) ==> result == stAlive(statusInput)
+//@   ensures [det] result == (bitand(aliveStatuses, statusInput) != 0)   // for callers: a deterministic function of the argument, also outside the twelve constants
+//@ end
+
+//@ func IsActiveUsedStatus
+//@   props C14 C03 C06
+//@   pure
+//@   ensures isStatus(statusInput) ==> result == stActiveUsed(statusInput)
+//@   ensures [det] result == (bitand(activeUsedStatuses, statusInput) != 0)   // for callers: a deterministic function of the argument, also outside the twelve constants
+//@ end
+
+//@ func IsActiveAllocatedStatus
+//@   props C14 C03 C06
+//@   pure
+//@   ensures isStatus(statusInput) ==> result == stActiveAllocated(statusInput)
+//@   ensures [det] result == (bitand(activeAllocatedStatuses, statusInput) != 0)   // for callers: a deterministic function of the argument, also outside the twelve constants
+//@   ensures [named] result == aaClass(statusInput)   // exports the named class to callers (the axiom itself is local to this package)
+//@ end
+
+//@ func IsPodBound
+//@   props C14 C03 C06
+//@   pure
+//@   ensures isStatus(statusInput) ==> result == stBound(statusInput)
+//@   ensures [det] result == (bitand(boundStatuses, statusInput) != 0)   // for callers: a deterministic function of the argument, also outside the twelve constants
+//@ end
+
+//@ func AllocatedStatus
+//@   props C14 C03 C06
+//@   pure
+//@   ensures isStatus(status) ==> result == stAllocated(status)
+//@   ensures [det] result == (bitand(allocatedStatuses, status) != 0)   // for callers: a deterministic function of the argument, also outside the twelve constants
+//@ end
